@@ -61,21 +61,23 @@ CHECKS["C06"] = ("model_checking",
     "carrying that error, then None, also through collect_vec.",
     TRUST + " Hooks: verif_params() accessor (drift reporting only).", "DESIGN.md §4 C06")
 CHECKS["C07"] = ("model_checking",
-    "TLC model-checks lattice designs of bisection, ITP and Brent (MC_Bisection, MC_Itp, MC_Brent - Brent also with ANY interpolated "
+    "TLC model-checks lattice designs of bisection, ITP and Brent (MC_Bisect, MC_Itp, MC_Brent - Brent also with ANY interpolated "
     "point) against the contract; lattice and seeded runs of the three real solvers with a recording function are judged by TLC against "
-    "the contract module Bracket; every abscissa of every real brent() run is validated bit for bit against the same Brent module "
-    "over doubles (Trace_Brent)",
+    "the contract module Bracket; every abscissa of every real brent() and bisection() run is validated bit for bit against the same "
+    "Brent / Bisect modules over doubles (Trace_Brent, Trace_Bisect)",
     "E1: every bracket/root position/sign/tolerance on the lattices (abscissae inside, sign change kept, iteration/evaluation bounds, "
     "result near a root or sign change). E2/E3: every recorded run of the three real solvers (abscissae seen, evaluation count, result) "
     "checked against the contract with root sets written in TLA+. Design-level trace validation reports drift, never a violation. "
-    "BrentLemmas.tla (dead inverse-quadratic branch, points inside the bracket) is proved by TLAPS in the self-test.",
+    "BrentLemmas.tla and BisectLemmas.tla (dead inverse-quadratic branch, points inside the bracket, halving bound) are proved by TLAPS in the self-test.",
     TRUST, "DESIGN.md §4 C07, §11")
 CHECKS["C08"] = ("exploration",
     "TLC-generated exhaustive affine systems + seeded systems/polynomials/contractions run on the real routines; TLC (Val_C08) judges each "
-    "run against the contract Iterative (cap, finite, distance to root / residual, Err for singular)",
+    "run against the contract Iterative (cap, finite, distance to root / residual, Err for singular); the Steffensen design is model-checked "
+    "over exact rationals (MC_Steffensen) and every map evaluation of the real steffensen() runs is validated bit for bit against it "
+    "over doubles (Trace_Steffensen)",
     "Exhaustive in small scope for affine systems (exact expected root), exploration elsewhere. The contract (not a convergence proof) is "
-    "evaluated by TLC on every run.",
-    TRUST, "DESIGN.md §4 C08")
+    "evaluated by TLC on every run. Design-level trace validation reports drift, never a violation.",
+    TRUST, "DESIGN.md §4 C08, §11")
 CHECKS["C11"] = ("exploration",
     "TLC-generated exhaustive operand pairs + seeded large shapes through 32 operator forms; TLC (Val_C11, Val_C11Dft) compares with the exact "
     "coefficient algebra of module Poly",
@@ -103,10 +105,12 @@ CHECKS["C19"] = ("exploration",
     "smooth functions against the classical remainder bound.",
     TRUST, "DESIGN.md §4 C19")
 CHECKS["C09"] = ("exploration",
-    "TLC model-checks the explicit-stack Simpson design (SimpsonStack), the Gaussian stopping rule (GaussStop) and the Romberg tableau; "
+    "TLC model-checks the explicit-stack Simpson design (SimpsonStack), the Gaussian and tanh-sinh stopping rules (GaussStop, "
+    "TanhSinhStop) and the Romberg tableau over exact rationals (RombergP); "
     "recorded runs of the eight routines are judged by TLC (Val_C09) against closed-form integrals written in Quad.tla and against the "
-    "textbook Simpson recursion run by TLC; every abscissa, verdict and the returned area of real-valued integrate_simpson runs are "
-    "validated bit for bit through SimpsonStack's own stack actions (Trace_Simpson)",
+    "textbook Simpson recursion run by TLC; the abscissae, verdicts and returned values of the real-valued runs of all eight routines are "
+    "validated bit for bit against the model-checked design modules over doubles, fed with the shipped tables where the routine uses "
+    "them (Trace_Simpson, Trace_Romberg, Trace_Gauss, Trace_TanhSinh)",
     "E1: every accept/split verdict tree to depth 3 (thorough 4): pending + accepted panels tile the interval, each frame carries its own "
     "panel's estimate. E3: seeded integrands with closed forms; result within KQ*tol, Err for bad intervals/tolerances, abscissae inside, "
     "Romberg exact on degree <= 2n-1, Simpson evaluations <= 2x textbook + 8. Design-level trace validation reports drift, never a violation.",
